@@ -363,18 +363,18 @@ var (
 
 // GenOpts steers the random history generator.
 type GenOpts struct {
-	N          int     // number of distinct headers
-	PUnknown   float64 // probability that a header's parent is unknown
-	PLate      float64 // probability that a header is delivered before its parent (orphan by order)
-	PDup       float64 // probability of re-submitting an already submitted header after each step
-	PForbidden float64 // probability that some header is put on the forbidden list
-	ZeroWork   bool    // allow zero-work encodings
-	Positive   bool    // only positive work
-	Deep       bool    // bias towards long competing branches (deep reorganisations)
-	Extreme    bool    // extreme field values (C03)
-	Lattice    bool    // difficulty bits whose work is about 2^k for k around 31/32/63/64/127/128: cumulative work crosses the widths of machine integers
+	N           int     // number of distinct headers
+	PUnknown    float64 // probability that a header's parent is unknown
+	PLate       float64 // probability that a header is delivered before its parent (orphan by order)
+	PDup        float64 // probability of re-submitting an already submitted header after each step
+	PForbidden  float64 // probability that some header is put on the forbidden list
+	ZeroWork    bool    // allow zero-work encodings
+	Positive    bool    // only positive work
+	Deep        bool    // bias towards long competing branches (deep reorganisations)
+	Extreme     bool    // extreme field values (C03)
+	ShareMerkle bool    // some headers carry the merkle root of an earlier, different header (legal for 80-byte headers)
+	Lattice     bool    // difficulty bits whose work is about 2^k for k around 31/32/63/64/127/128: cumulative work crosses the widths of machine integers
 }
-
 
 // LongReorgHistories: reorganisations that switch the state of more headers than any batching threshold a storage
 // layer is likely to use (100, 500, 1000 bound parameters): one heavy header displacing a long light chain, a long
@@ -419,6 +419,13 @@ func LongReorgHistories(thorough bool) []*History {
 	h.Subs = append(h.Subs, mk(base+n, n+1, bitsW2), mk(base+n+1, base+n, bitsW2))
 	h.X = []string{"sparse"}
 	out = append(out, h)
+	no := 120
+	if thorough {
+		no = 1100
+	}
+	fl := OrphanFloodHistory(no)
+	fl.X = []string{"sparse"}
+	out = append(out, fl)
 	return out
 }
 
@@ -438,6 +445,23 @@ var latticeBits = func() []uint32 {
 	}
 	return out
 }()
+
+// OrphanFloodHistory: more orphans than any bounded "orphan pool" would keep (btcd keeps 100): three main-chain
+// headers, an orphan branch of two, then n unrelated orphan roots, then a third header on the early orphan branch,
+// one more main-chain header and a child of the first flood orphan - nothing stored may disappear, and the late
+// orphan children get their parent's height + 1 and cumulated work.
+func OrphanFloodHistory(n int) *History {
+	mk := func(id, prev int, bits uint32) Sub {
+		return Sub{ID: id, Prev: prev, Bits: bits, Ver: 1, Merkle: id + 100, TS: uint32(1600000000 + id), Nonce: uint32(id)}
+	}
+	fl := &History{}
+	fl.Subs = append(fl.Subs, mk(2, 1, bitsW2), mk(3, 2, bitsW2), mk(4, 3, bitsW2), mk(50, 49, bitsW2), mk(51, 50, bitsW2))
+	for i := 0; i < n; i++ {
+		fl.Subs = append(fl.Subs, mk(1000+i, 5000+i, bitsW2))
+	}
+	fl.Subs = append(fl.Subs, mk(52, 51, bitsW2), mk(5, 4, bitsW2), mk(3000, 1000, bitsW2))
+	return fl
+}
 
 // GenHistory draws a random history.
 func GenHistory(r *rand.Rand, o GenOpts) *History {
@@ -485,6 +509,9 @@ func GenHistory(r *rand.Rand, o GenOpts) *History {
 			bits = latticeBits[r.Intn(len(latticeBits))]
 		}
 		s := Sub{ID: id, Prev: prev, Bits: bits, Ver: 1, Merkle: id + 100, TS: uint32(1600000000 + k), Nonce: uint32(k)}
+		if o.ShareMerkle && len(subs) > 0 && r.Intn(4) == 0 {
+			s.Merkle = subs[r.Intn(len(subs))].Merkle
+		}
 		if o.Extreme {
 			switch r.Intn(6) {
 			case 0:
